@@ -339,7 +339,7 @@ func (f *Frame) builtinAppend(st *State, in ssa.Instruction, c *ssa.CallCommon, 
 	vc.assumeIn(st, And(Eq(A, resArr), Eq(O, resOff)))
 	for _, h := range vc.elemHeaps(elem) {
 		old := st.Heap(vc, h.name, h.sort)
-		if !vc.allowAll && vc.entry != nil {
+		if (!vc.allowAll || vc.ownFresh()) && vc.entry != nil {
 			alts := []Term{Not(inplace), Eq(n, IntLit(0)), App(SBool, ">", Base(SlArr(s)), vc.entry.top)}
 			for _, m := range vc.modTop {
 				if m.heap == h.name {
@@ -390,7 +390,7 @@ func (f *Frame) builtinCopy(st *State, in ssa.Instruction, c *ssa.CallCommon, ar
 	vc.assumeIn(st, Eq(n, Ite(Le(SlLen(d), sl), SlLen(d), sl)))
 	for _, h := range vc.elemHeaps(ds.Elem()) {
 		old := st.Heap(vc, h.name, h.sort)
-		if !vc.allowAll && vc.entry != nil {
+		if (!vc.allowAll || vc.ownFresh()) && vc.entry != nil {
 			alts := []Term{Eq(n, IntLit(0)), App(SBool, ">", Base(SlArr(d)), vc.entry.top)}
 			for _, m := range vc.modTop {
 				if m.heap == h.name {
@@ -581,6 +581,9 @@ func (f *Frame) applyContract(st *State, in ssa.Instruction, ct *Contract, sig *
 		if n != "" && n != "_" {
 			sc.vars[n] = scopeVar{args[i].T, typs[i]}
 		}
+	}
+	if ct.RecvAlias != "" && len(args) > 0 && sig.Recv() != nil {
+		sc.vars[ct.RecvAlias] = scopeVar{args[0].T, typs[0]}
 	}
 	// a closure's contract speaks about its captured variables by name: their content when the closure is called
 	if fn != nil && len(fn.FreeVars) > 0 && len(f.pendingBindings) == len(fn.FreeVars) {
@@ -863,6 +866,106 @@ func (f *Frame) callInvoke(st *State, in ssa.Instruction, c *ssa.CallCommon, rec
 func (f *Frame) callDynamic(st *State, in ssa.Instruction, c *ssa.CallCommon, fv Value, args []Value) (*State, []Value) {
 	vc := f.vc
 	vc.oblige(st, "nil", vc.anchorOf(in), Not(Eq(fv.T, IntLit(0))), nil, "call of nil function value", in.Pos())
+	if ds := vc.dispatchFor(in); ds != nil {
+		return f.callDispatch(st, in, c, fv, args, ds)
+	}
+	return f.callDynamicPlain(st, in, c, fv, args)
+}
+
+func (vc *VC) dispatchFor(in ssa.Instruction) *DispatchSpec {
+	if vc.c == nil || len(vc.c.Dispatch) == 0 {
+		return nil
+	}
+	ci, ok := in.(ssa.CallInstruction)
+	if !ok {
+		return nil
+	}
+	name := calleeName(ci.Common())
+	a := vc.anchorOf(in)
+	ord := 0
+	if j := strings.LastIndex(a, "#"); j >= 0 {
+		fmt.Sscanf(a[j+1:], "%d", &ord)
+	}
+	for _, d := range vc.c.Dispatch {
+		if d.Anchor.Callee == name && d.Anchor.Ordinal == ord {
+			return d
+		}
+	}
+	return nil
+}
+
+// methodByName resolves "(*T).M" / "T.M" / "F" in the package of the function under verification.
+func (vc *VC) methodByName(name string) *ssa.Function {
+	if fn, ok := vc.p.funcs[vc.pkgOf(vc.fn).Path()+"::"+name]; ok {
+		return fn
+	}
+	return nil
+}
+
+// callDispatch: case split of a call through a function value over the bound method values named in a
+// `dispatch` clause; the last case (none of them) uses the functype contract.
+func (f *Frame) callDispatch(st *State, in ssa.Instruction, c *ssa.CallCommon, fv Value, args []Value, ds *DispatchSpec) (*State, []Value) {
+	vc := f.vc
+	vc.anchorHit("dispatch:"+ds.Anchor.Callee, ds.Anchor.Ordinal, false)
+	var outs []inEdge
+	var results [][]Value
+	none := True
+	code := App(SInt, "fn_code", fv.T)
+	for _, tn := range ds.Targets {
+		m := vc.methodByName(tn)
+		if m == nil || m.Signature.Recv() == nil {
+			vc.specErrors = append(vc.specErrors, "dispatch "+ds.Src+": no method "+tn)
+			continue
+		}
+		obj, _ := m.Object().(*types.Func)
+		if obj == nil {
+			continue
+		}
+		cond := Eq(code, IntLit(int64(vc.boundTag(obj.FullName()))))
+		none = And(none, Not(cond))
+		bst := st.clone()
+		bpc := vc.freshConst("pc.disp", SBool)
+		vc.assume(Eq(bpc, And(st.pc, cond)))
+		bst.pc = bpc
+		rv := Value{T: App(SInt, "fn_recv", fv.T)}
+		all := append([]Value{rv}, args...)
+		out, vals := f.callFunction(bst, in, m, nil, all, c)
+		if out == nil {
+			continue
+		}
+		outs = append(outs, inEdge{out, out.pc})
+		results = append(results, vals)
+	}
+	{
+		bst := st.clone()
+		bpc := vc.freshConst("pc.disp", SBool)
+		vc.assume(Eq(bpc, And(st.pc, none)))
+		bst.pc = bpc
+		out, vals := f.callDynamicPlain(bst, in, c, fv, args)
+		if out != nil {
+			outs = append(outs, inEdge{out, out.pc})
+			results = append(results, vals)
+		}
+	}
+	if len(outs) == 0 {
+		return nil, nil
+	}
+	merged := vc.merge(outs, "dispatch."+ds.Anchor.Callee)
+	nres := c.Signature().Results().Len()
+	vals := make([]Value, nres)
+	for i := 0; i < nres; i++ {
+		rt := c.Signature().Results().At(i).Type()
+		v := vc.freshConst("disp."+ds.Anchor.Callee, vc.env.SortOf(rt))
+		for k, o := range outs {
+			vc.assume(Implies(o.cond, Eq(v, results[k][i].T)))
+		}
+		vals[i] = Value{T: v}
+	}
+	return merged, vals
+}
+
+func (f *Frame) callDynamicPlain(st *State, in ssa.Instruction, c *ssa.CallCommon, fv Value, args []Value) (*State, []Value) {
+	vc := f.vc
 	if ft := vc.p.functypeContract(c.Value.Type()); ft != nil {
 		all := args
 		names, _ := contractParamNames(ft, c.Signature(), nil)
@@ -997,6 +1100,13 @@ func (vc *VC) checkAnchors() {
 		seen[k] = true
 		vc.oblige(vc.entry, "assert", fmt.Sprintf("call:%s#%d:missing:ghost", g.Anchor.Callee, g.Anchor.Ordinal), False, vc.c.Props,
 			fmt.Sprintf("ghost update %s call %s#%d cannot be placed: the call it is anchored to no longer occurs in the function", when(g.After), g.Anchor.Callee, g.Anchor.Ordinal), vc.fn.Pos())
+	}
+	for _, d := range vc.c.Dispatch {
+		if vc.anchorsHit[anchorKey("dispatch:"+d.Anchor.Callee, d.Anchor.Ordinal, false)] {
+			continue
+		}
+		vc.oblige(vc.entry, "assert", fmt.Sprintf("call:%s#%d:missing:dispatch", d.Anchor.Callee, d.Anchor.Ordinal), False, vc.c.Props,
+			fmt.Sprintf("dispatch %s cannot be placed: the call through the function value no longer occurs in the function", d.Src), vc.fn.Pos())
 	}
 }
 
